@@ -198,23 +198,24 @@ def judge(case, rec, slack_ms=250.0):
         if not sl:
             continue
         obs["backoff_sleeps_checked"] += len(sl)
+        bclass = "budget-ge-26" if r.budget >= 26 else "budget-lt-26"   # (1 << 25) * 100 is the first int overflow
         obs["backoff_requested_ms_max"] = max(obs["backoff_requested_ms_max"], int(min(max(sl), 2 ** 62)))
         nconn = sum(1 for e in ev if e["e"] == "c_connect" and e.get("cur") == i) if case.group == "large-budget" else 0
         attempts = max(len(trans.get(i, [])), nconn)
         if attempts - 1 > len(sl):
-            V("C17:backoff:retry-without-sleep",
+            V("C17:backoff:retry-without-sleep:" + bclass,
               "%s %s (budget %d): %d attempts observed but only %d back-off sleep(s) — %d retr%s started with no back-off at all "
               "(a non-positive requested duration)" % (r.method, r.token, r.budget, attempts, len(sl), attempts - 1 - len(sl),
                                                       "y" if attempts - 1 - len(sl) == 1 else "ies"),
               dict(requested_ms=sl[:80]))
         low = [(k, x) for k, x in enumerate(sl) if x < 100.0]
         if low:
-            V("C17:backoff:below-base",
+            V("C17:backoff:below-base:" + bclass,
               "%s %s (budget %d): back-off #%d requested %.0f ms, below the 100 ms base of attempt 0" % (r.method, r.token, r.budget, low[0][0] + 1, low[0][1]),
               dict(requested_ms=sl[:80]))
         drop = [(k, sl[k], sl[k + 1]) for k in range(len(sl) - 1) if sl[k + 1] + 99.5 < sl[k]]
         if drop:
-            V("C17:backoff:decreased",
+            V("C17:backoff:decreased:" + bclass,
               "%s %s (budget %d): back-off #%d requested %.0f ms after #%d had requested %.0f ms" % (r.method, r.token, r.budget, drop[0][0] + 2, drop[0][2], drop[0][0] + 1, drop[0][1]),
               dict(requested_ms=sl[:80]))
 
